@@ -798,3 +798,13 @@ func verifAdopt(id int) {
 	th.parked <- 0
 	<-th.resume
 }
+
+// verifWorkerID names shard i's write worker thread 1000+i for the scheduler.
+func verifWorkerID[K comparable, V any](c *Cache[K, V], s *shard[K, V]) int {
+	for i, x := range c.shards {
+		if x == s {
+			return 1000 + i
+		}
+	}
+	return 1999
+}
